@@ -39,30 +39,6 @@ pub fn tokenize(source: &str, file_id: &FileId) -> (Vec<Token>, Vec<Diagnostic>)
                     col,
                     text: lexer.slice().into(),
                 });
-
-                match token_type {
-                    TokenType::Newline => {
-                        line += 1;
-                        col = 0;
-                    }
-                    TokenType::Comment => {
-                        // Comments can have new lines embedded
-                        for c in lexer.slice().chars() {
-                            match c {
-                                '\n' => {
-                                    line += 1;
-                                    col = 0;
-                                }
-                                _ => {
-                                    // Columns count bytes, like the span length used for
-                                    // every other token
-                                    col += c.len_utf8();
-                                }
-                            }
-                        }
-                    }
-                    _ => col += lexer.span().len(),
-                }
             }
             Err(_) => {
                 let span = lexer.span();
@@ -81,6 +57,22 @@ pub fn tokenize(source: &str, file_id: &FileId) -> (Vec<Token>, Vec<Diagnostic>)
                         ),
                     ),
                 ))
+            }
+        }
+
+        // Move over the text of the token (or of the text that is not a
+        // token). Any of these can have new lines embedded (a line break
+        // token, a comment, a string that spans lines).
+        for c in lexer.slice().chars() {
+            match c {
+                '\n' => {
+                    line += 1;
+                    col = 0;
+                }
+                _ => {
+                    // Columns count bytes, like the span of a token
+                    col += c.len_utf8();
+                }
             }
         }
     }
